@@ -13,4 +13,4 @@ git -C /repo checkout -- .
 git -C /repo status --short | head -3
 cp -a "$SAVE"/. /verif/evidence/; rm -rf "$SAVE"
 # leave the regenerated modules in the state of the unchanged tree
-/verif/build/bin/go2lean /repo /verif/lean/GitSizer/Gen >/dev/null 2>&1; /verif/build/bin/gofacts /repo /verif/lean/GitSizer/Gen >/dev/null 2>&1
+/verif/build/bin/go2lean /repo /verif/lean/GitSizer/Gen >/dev/null 2>&1; /verif/build/bin/gofacts /repo /verif/lean/GitSizer/Gen >/dev/null 2>&1; /verif/build/bin/gostr2lean /repo /verif/lean/GitSizer/Gen >/dev/null 2>&1
